@@ -103,6 +103,11 @@ func (a *Auth) validate(username, password string) (permitted bool, err error) {
 	case SHA256:
 		h = sha256.New()
 	case Bcrypt:
+		// bcrypt only uses the first 72 bytes of the password; generatePassword refuses longer ones,
+		// so a longer password can never be the one that was stored.
+		if len(password) > 72 {
+			return false, nil
+		}
 		return bcrypt.CompareHashAndPassword([]byte(hashedPassword), []byte(password)) == nil, nil
 	default:
 		// just in case.
